@@ -281,6 +281,13 @@ func (fw *FileWriter) flushLocked() error {
 		fw.dirtyTail = false
 	}
 	entries := fw.buffer.GetEntriesAndClear()
+	// EntryCount is a uint16. Entries restored after failed flushes can pile up beyond that
+	// during an outage: write them one block's worth at a time, never more.
+	more := len(entries) > math.MaxUint16
+	if more {
+		fw.buffer.Restore(entries[math.MaxUint16:])
+		entries = entries[:math.MaxUint16]
+	}
 	header, compressed, err := CompressEntries(entries)
 	if err != nil {
 		fw.buffer.Restore(entries)
@@ -334,6 +341,9 @@ func (fw *FileWriter) flushLocked() error {
 		return err
 	}
 
+	if more {
+		return fw.flushLocked() // the rest of what piled up
+	}
 	return nil
 }
 
